@@ -97,3 +97,18 @@ def random_flags(R, bits: list[int], prob: float = 0.3, base: int = 0) -> int:
         if R.random() < prob:
             fl |= b
     return fl
+
+
+BRACKET_TOKS = ['a', '-', '[:alpha:]', '[:digit:]', '!', 'x', 'z', '[', ']', '^', '\\', '/', '.', '&', '~', '|', '#', '(?#)']
+
+
+def bracket_patterns(maxtok: int = 4):
+    """every bracket expression whose body is a sequence of <= maxtok tokens of BRACKET_TOKS
+    (ranges, reversed ranges, POSIX classes as range ends, negations, odd first members)"""
+    for L in range(1, maxtok + 1):
+        for t in itertools.product(BRACKET_TOKS, repeat=L):
+            yield '[' + ''.join(t) + ']'
+
+
+def random_bracket(R, maxtok: int = 7) -> str:
+    return '[' + ''.join(R.choice(BRACKET_TOKS) for _ in range(R.randint(1, maxtok))) + ']'
